@@ -388,3 +388,34 @@ def dask_key_obligations(model, rep, clause, rule="KEY"):
                 rep.ob(rule, fn.anchor, "an explicit dask key contains a unique token (keys are used verbatim and merged across the loaders of one graph)", ok,
                        f"`{k.arg}={norm_src(v)[:60]}` is the same for the corresponding task of every loader", node=c, fn=fn, clause=clause)
     return n
+
+
+ARRAY_BUILDERS = {"array", "asarray", "stack", "vstack", "hstack", "column_stack", "concatenate", "transpose", "reshape", "atleast_2d", "swapaxes"}
+
+
+def frame_orientation_obligations(model, rep, fn, clause, rule="ORIENT"):
+    """A polars DataFrame built from ONE two-dimensional array has no stated orientation: polars infers rows/columns from the run-time shape (and, for a square
+    array, from its memory layout), so `DataFrame(np.array(results).T, schema)` is the transposed table whenever the number of rows happens to equal the number of
+    columns.  A table whose row i must belong to molecule i is therefore built from a sequence / dict of columns, or states `orient=`."""
+    from ..match import Matcher
+    M = Matcher(fn)
+    n = 0
+    for c in ast.walk(fn.node):
+        if not (isinstance(c, ast.Call) and (dotted(c.func) or "").rsplit(".", 1)[-1] == "DataFrame" and (c.args or any(k.arg == "data" for k in c.keywords))):
+            continue
+        n += 1
+        rep.instance(rule + ".frame", fn.loc(c))
+        x = c.args[0] if c.args else [k.value for k in c.keywords if k.arg == "data"][0]
+        x = M.expr(x)
+        top = None
+        if isinstance(x, ast.Attribute) and x.attr == "T":
+            top = ".T"
+        elif isinstance(x, ast.Call):
+            nm = (dotted(x.func) or "").rsplit(".", 1)[-1] if not isinstance(x.func, ast.Call) else None
+            if nm in ARRAY_BUILDERS:
+                top = nm
+        has_orient = any(k.arg == "orient" for k in c.keywords)
+        ok = top is None or has_orient
+        rep.ob(rule, fn.anchor, "a result table is built from a sequence of columns (or states orient=), not from one 2-D array whose orientation polars infers "
+               "from the run-time shape", ok, f"`{norm_src(c)[:80]}`: a single array ({top}) without orient=", node=c, fn=fn, clause=clause)
+    return n
